@@ -10,7 +10,10 @@ any exception other than Unidentifiable / the rejection ValueError is a violatio
 from __future__ import annotations
 
 import json
+import os
 import random
+import subprocess
+import sys
 
 from .. import common as C
 from .. import enc_expr as E
@@ -21,7 +24,7 @@ from . import c07 as C07
 from . import c18 as C18
 
 PROP = "C08"
-RULE = ("(7%: structured 'observational' inputs -- P(y | x) over factual variables, the static part of the two proved fragments; 8%: structured 'bichain' inputs -- 3-4 nodes on a chain of bidirected edges, one outcome, two conditions) random ADMGs with 2-5 nodes x pairs (outcome conjunction, non-empty condition conjunction) with disjoint keys drawn "
+RULE = ("(6%: structured 'samebase' inputs -- several conditions over ONE base variable in different worlds with equal / different values, both listing orders, or an outcome sharing its base variable with a condition; one batch case: >= 60 multi-condition inputs run unpatched in fresh interpreters under PYTHONHASHSEED 0,1,2 (thorough: 400 inputs, 8 seeds); 7%: structured 'observational' inputs -- P(y | x) over factual variables, the static part of the two proved fragments; 8%: structured 'bichain' inputs -- 3-4 nodes on a chain of bidirected edges, one outcome, two conditions) random ADMGs with 2-5 nodes x pairs (outcome conjunction, non-empty condition conjunction) with disjoint keys drawn "
         "from <=2 counterfactual worlds plus the factual world (shared/distinct subscripts, x / x' values, "
         "self-interventions); the examples of test_idc_star / Shpitser-Pearl / Tikka and all past witnesses first; a "
         "stream of impossible conditions (violating effectiveness). Every case is run under every order of the worlds and "
@@ -45,9 +48,23 @@ ASSUMPTIONS = [
     "'rejects an impossible condition': the oracle only demands a rejection when impossibility is certain (a conjunct "
     "V_S = v whose own subscript fixes V to the other value); a rejection of a possible condition is counted "
     "(tag rejected_possible) but is not a violation of this property's statement",
-    "idc_star's answer can depend on PYTHONHASHSEED (corpus/C08/hash_order_dependent.json: the keys taken from a Python set "
-    "in get_new_outcomes_and_conditions decide which condition is exchanged first); the model takes that order as the "
-    "parameter kordf, the harness drives the real code through both orders and judges every distinct answer",
+    "PYTHONHASHSEED (R-clause): until `fix:` b76144c idc_star's answer depended on the hash seed (corpus/C08/hash_order_dependent.json: "
+    "the keys taken from a Python set in get_new_outcomes_and_conditions decided which condition is exchanged first); the code now "
+    "sorts them by _variable_sort_key, the model is run with kordf = orderDistrict false (all theorems hold for every kordf); PROVED "
+    "for the model (idcstar_reassociation_order_independent, idcstar_order_independent): with the set iterated in ANY order pi before "
+    "the sort, the re-association and -- on inputs without self-intervened keys (IdcInv) -- the whole of idc_star return the same "
+    "answer; that Python's sorted() over the set behaves like the model's sort of a permutation is the runtime part: "
+    "the check therefore also runs a batch of multi-condition inputs (the old witnesses first) UNPATCHED in fresh interpreters under several hash "
+    "seeds: differing answers are judged one by one, a wrong one is the never-listed kind 'order-dependent-verdict'; the other "
+    "set-valued iterations (worlds in cg.py, district nodes in id_star.py) are still driven through all their orders in-process",
+    "attribution to a listed finding needs TWO things: the broken step is identified on the input by exact evaluation (below) AND "
+    "the Lean model -- the correspondence-checked copy of the code the findings were written about -- returns the very same answer "
+    "on that input under the same iteration order (driver call per failing input); a wrong answer that differs from the model's "
+    "gets the never-listed key [differs-from-the-wrong-answer-of-the-modelled-code, ...]: a new defect is not hidden behind an old "
+    "finding that happens to fire on the same input",
+    "vocabulary: an estimand with a term that mixes variables of different worlds is a failure of kind 'vocabulary' whatever its "
+    "value (it is a counterfactual joint distribution, nothing has been identified); the unchanged code never returns one "
+    "(idcstar_vocab)",
     "termination of the model is by fuel (2(|outcomes|+|conditions|) + |V| + 4): the inner ID* calls terminate by theorem "
     "(C07 idstar_never_out_of_fuel); IDC*'s own line-4 recursion terminates by theorem (i) with the explicit bound |conditions| + 1 "
     "when no variable NAME occurs both among the outcomes and among the conditions (idcstar_own_recursion_terminates / "
@@ -73,7 +90,8 @@ ASSUMPTIONS = [
     "'normalisation:subscript', i.e. as a VIOLATION); these classes have ONE coarse finding key each, "
     "because the broken step is identified on every such input, not inferred from the input's shape; any other failure "
     "(including every crash) is keyed by (failure kind, graph + outcomes + conditions of the SHRUNK failing input up to "
-    "renaming). A new defect that only ever co-occurs with an earlier broken step on the same input would be masked",
+    "renaming). A new defect that only ever co-occurs with an earlier broken step on the same input AND leaves the answer of the "
+    "unchanged code untouched there would be masked (any change of the answer on such an input is caught by the comparison with the model)",
 ]
 EXHAUSTIVE = {"quick": False, "thorough": False}
 LEANCHECK_MODULES = ["Y0.Model.IdcStar", "Y0.Props.C08"]
@@ -134,6 +152,61 @@ def _gen_bichain(rng: random.Random):
     return g, outs, conds
 
 
+def _gen_samebase(rng: random.Random):
+    """structured: SEVERAL CONDITIONS OVER ONE BASE VARIABLE in different worlds (Z_w = z', Z = z), equal and different values,
+    both listing orders; Z has a child Y (the outcome, in one of the worlds) and usually a parent X that the world w sets, so
+    that the copies of Z are distinct nodes of the counterfactual graph and rule 2 can apply to one of them; sometimes the
+    outcome shares its base variable with a condition instead (a third copy of Z, or Y itself also conditioned on in another
+    world).  What is exchanged for an intervention must be the value of THAT condition, not of a namesake."""
+    n = rng.choice([3, 3, 4])
+    order = list(range(n))
+    rng.shuffle(order)
+    x, z, y = order[0], order[1], order[2]
+    di = [[z, y]]
+    if rng.random() < 0.85:
+        di.append([x, z])
+    for i in range(n):
+        for j in range(i + 1, n):
+            e = [order[i], order[j]]
+            if e not in di and rng.random() < 0.2:
+                di.append(e)
+    bi = []
+    for i in range(n):
+        for j in range(i + 1, n):
+            if rng.random() < 0.15:
+                bi.append([order[i], order[j]])
+    g = {"nodes": sorted(order), "di": di, "bi": bi}
+    star = lambda p_=0.5: "p" if rng.random() < p_ else "m"    # noqa: E731
+    others = [v_ for v_ in order if v_ not in (z, y)]
+    w1 = ((x, star()),)
+    pool = [(), w1]
+    if rng.random() < 0.5:
+        w2 = ((x, "p" if w1[0][1] == "m" else "m"),) if rng.random() < 0.6 or len(others) < 2 else \
+            tuple(sorted((o, star()) for o in others[:2]))
+        if w2 not in pool:
+            pool.append(w2)
+    ws = rng.sample(pool, 2)
+    a = star()
+    b = a if rng.random() < 0.35 else ("p" if a == "m" else "m")
+    conds = [[K.mkvar(z, ws[0]), a], [K.mkvar(z, ws[1]), b]]
+    r = rng.random()
+    if r < 0.65:
+        outs = [[K.mkvar(y, rng.choice(pool)), star(0.3)]]
+    elif r < 0.85 and len(pool) == 3:
+        w3 = [w for w in pool if w not in ws][0]
+        outs = [[K.mkvar(z, w3), star()], [K.mkvar(y, rng.choice(pool)), star(0.3)]][:rng.choice([1, 2])]
+    else:
+        wy = rng.sample(pool, 2)
+        outs = [[K.mkvar(y, wy[0]), star(0.3)]]
+        conds.append([K.mkvar(y, wy[1]), star(0.3)])
+    if rng.random() < 0.25 and len(others) > 1:
+        conds.append([K.mkvar(others[1], rng.choice([w for w in pool if others[1] not in {n_ for n_, _ in w}])), star(0.3)])
+    rng.shuffle(conds)
+    keys = set()
+    conds = [c for c in conds if not (C.enc(c[0]) in keys or keys.add(C.enc(c[0])))]
+    return g, outs, conds
+
+
 def _gen_observational(rng: random.Random):
     """structured: an observational conditional query P(y | x) -- factual variables, unstarred values, disjoint names: the
     static part of the fragment of idcstar_sound_fragment (whether rule 2 applies / something is marginalised varies)"""
@@ -157,6 +230,11 @@ def cases(rng: random.Random, tier: str):
             g, outs, conds = _gen_bichain(rng)
             out.append({"g": g, "outcomes": outs, "conditions": conds, "seed": rng.randrange(1 << 30), "gen": "bichain"})
             continue
+        if rng.random() < 0.06:
+            g, outs, conds = _gen_samebase(rng)
+            if not ({C.enc(v_) for v_, _ in outs} & {C.enc(v_) for v_, _ in conds}):
+                out.append({"g": g, "outcomes": outs, "conditions": conds, "seed": rng.randrange(1 << 30), "gen": "samebase"})
+                continue
         if rng.random() < 0.07:
             g, outs, conds = _gen_observational(rng)
             out.append({"g": g, "outcomes": outs, "conditions": conds, "seed": rng.randrange(1 << 30), "gen": "observational"})
@@ -177,10 +255,75 @@ def cases(rng: random.Random, tier: str):
             if C.enc(nv) not in {C.enc(v_) for v_, _ in conds + outs}:
                 conds[0] = [nv, val]
         out.append(c)
+    # R-clause (Python runtime): the answer must not depend on PYTHONHASHSEED.  One batch case: inputs with several conditions
+    # and a counterfactual world (where the re-association / the choice of the exchanged condition can depend on an order) are
+    # run in FRESH interpreters under several hash seeds, unpatched; see _run_hashseeds
+    batch = [c for c in out if not c.get("malformed") and len(c["conditions"]) >= 2 and K.n_worlds(joint(c)) >= 1]
+    batch = [c for c in out if "PYTHONHASHSEED" in str(c.get("note", ""))] + batch[:60 if tier == "quick" else 400]
+    out.append({"kind": "hashseeds", "g": {"nodes": [], "di": [], "bi": []}, "outcomes": [], "conditions": [],
+                "batch": [{k: c[k] for k in ("g", "outcomes", "conditions", "seed")} for c in batch],
+                "hashseeds": [0, 1, 2] if tier == "quick" else list(range(8)), "seed": 0})
     return out
 
 
 # ------------------------------------------------------------------------------------------ real code
+
+
+_CHILD = """
+import sys, json
+sys.path.insert(0, VERIF)
+from harness import common as C
+C.use_repo()
+from harness.props import c08
+out = []
+for c in BATCH:
+    try:
+        r, exc = c08._run_real(c, None)
+    except Exception as e:
+        r = ["harness", type(e).__name__]
+    out.append(r)
+print(json.dumps(out))
+"""
+
+
+def _run_hashseeds(case):
+    """the real idc_star, unpatched, on every input of the batch in a fresh interpreter per PYTHONHASHSEED.  An input whose
+    answers differ is judged answer by answer with the exact oracle: a wrong one is a failure of kind 'order-dependent-verdict'
+    (never listed since `fix:` b76144c: get_new_outcomes_and_conditions sorts the re-associated keys)."""
+    results = {}
+    for hs in case["hashseeds"]:
+        src = _CHILD.replace("VERIF", repr(str(C.VERIF))).replace("BATCH", "json.loads(%r)" % json.dumps(case["batch"]))
+        env = dict(os.environ)
+        env["PYTHONHASHSEED"] = str(hs)
+        env["Y0_REPO"] = str(C.REPO)
+        env["VERIF_LINECOV"] = "0"
+        p = subprocess.run([sys.executable, "-c", src], capture_output=True, text=True, env=env, timeout=1800)
+        if p.returncode != 0:
+            raise RuntimeError(p.stderr[-800:])
+        results[hs] = json.loads(p.stdout.strip().splitlines()[-1])
+    fail, key, dependent = None, None, 0
+    for i, c in enumerate(case["batch"]):
+        answers = []
+        for hs in case["hashseeds"]:
+            if results[hs][i] not in answers:
+                answers.append(results[hs][i])
+        if len(answers) < 2:
+            continue
+        dependent += 1
+        if fail is None and _in_domain(c):
+            for a in answers:
+                f1, k1 = _judge(c, a, None, 8, None)
+                if f1:
+                    fail = (f"idc_star's answer depends on PYTHONHASHSEED on {json.dumps(c)}: answers {json.dumps(answers)[:600]}; "
+                            f"one of them is wrong: {f1}")
+                    key = json.dumps(["order-dependent-verdict", [k1]])
+                    break
+    out = {"out": ["hashseeds"], "fail": fail, "nontrivial": True,
+           "tags": {"gen": "hashseeds", "hashseed_batch": len(case["batch"]), "hashseeds": len(case["hashseeds"]),
+                    "hashseed_dependent_inputs": dependent}}
+    if key:
+        out["finding_key"] = key
+    return out
 
 
 def joint(case):
@@ -210,9 +353,9 @@ def _run_real(case, strategy, record=None):
                 orig_new = idc.get_new_outcomes_and_conditions
                 orig_r2 = idc.cf_rule_2_of_do_calculus_applies
 
-                def rec_r2(cf_graph, outcomes, condition):
+                def rec_r2(cf_graph, outcomes, condition, **kw):
                     outcomes = list(outcomes)
-                    r = orig_r2(cf_graph, outcomes, condition)
+                    r = orig_r2(cf_graph, outcomes, condition, **kw)
                     record["rule2"].append({"level": len(record["levels"]) - 1, "cf": K.enc_nx_cf_graph(cf_graph),
                                             "outcomes": [E.enc_var(o) for o in outcomes],
                                             "condition": E.enc_var(condition), "result": bool(r)})
@@ -501,6 +644,12 @@ def _judge(case, res, exc, n_models, strategy=None):
         if bad is not None:
             return (f"estimand {expr} contains the term {bad} whose subscript set gives one variable both values: it "
                     "denotes nothing"), "illformed"
+        if not C07.single_world(expr):
+            # as in C07: a term over several worlds is not an interventional term (theorem idcstar_vocab: the unchanged code
+            # never returns one); never a listed finding
+            mixed = next(lf for lf in S.leaves(expr) if not C07.single_world(lf))
+            return (f"estimand {expr} contains the term {mixed} that mixes variables of different worlds: it is a counterfactual "
+                    "joint distribution, not an interventional term, so nothing has been identified"), "vocabulary"
         w = S.check_estimand(g, jt, expr, case.get("seed", 0), n_models=n_models, cond=cond)
         if w is None:
             return None, None
@@ -689,6 +838,37 @@ def in_fragment_x(case):
     return not c2 and canon(o2) in (canon(want), canon(same))
 
 
+def _model_answers(case):
+    """the answers of the Lean MODEL on this case, one per iteration order (same list as `by_order`), or None when the driver
+    is not available.  The model is the correspondence-checked copy of the code the listed findings were written about."""
+    try:
+        m = canon_model(case, C.parse(C.LeanModel().ask(request(case))))
+    except Exception:  # noqa: BLE001
+        return None
+    return m[1] if m and m[0] == "orders" else None
+
+
+def _same_wrong_answer_as_model(case, r):
+    """A wrong answer is attributed to a LISTED finding only when the model of the code gives the very same answer on this
+    input (under the same iteration order): the listed finding explains THAT wrong answer, not any other wrong answer the real
+    code may give on an input where the unchanged code is wrong as well.  (True / False, model's answer); True when unknown."""
+    mans = _model_answers(case)
+    if mans is None:
+        return True, None
+    strategies = K.id_strategies(joint(case))
+    st = r.get("strategy")
+    if st is None:
+        real = r["unpatched"]
+        return (real in mans), (mans[0] if mans else None)
+    try:
+        i = [tuple(s_) for s_ in strategies].index(tuple(st))
+    except ValueError:
+        return True, None
+    if i >= len(mans) or i >= len(r["by_order"]):
+        return True, None
+    return r["by_order"][i] == mans[i], mans[i]
+
+
 COARSE = ("F11", "normalisation:subscript", "inherited", "reassociation", "exchange:polarity", "exchange:conditions", "exchange:separation",
           "conditional:shared-base")
 
@@ -725,6 +905,8 @@ def _shrink_budget(per_process=5):
 
 
 def run_python(case):
+    if case.get("kind") == "hashseeds":
+        return _run_hashseeds(case)
     r = _evaluate(case, all_verdicts=True)
     by_order = r["by_order"]
     frag = bool(r["in_domain"]) and in_fragment_c(case)
@@ -781,6 +963,12 @@ def run_python(case):
         if r["order_verdict"] == "mixed":
             # the same input is answered correctly under one iteration order and wrongly under another
             ck = json.dumps(["order-dependent-verdict", json.loads(ck)])
+        same, mans = _same_wrong_answer_as_model(case, r)
+        if not same:
+            # never listed: a wrong answer that is not the wrong answer of the code the findings describe
+            ck = json.dumps(["differs-from-the-wrong-answer-of-the-modelled-code", json.loads(ck)])
+            out["fail"] += (" [the MODEL of idc_star (Y0/Model/IdcStar.lean), about which the listed finding was written, answers "
+                            f"{json.dumps(mans)[:300]} on this input: the listed finding does not explain this wrong answer]")
         out["finding_key"] = ck
     elif r["fail"] and not case.get("_noshrink") and _shrink_budget():
         small, key = SHRINK.shrink_to_key(case, r["kind"])
@@ -795,6 +983,8 @@ def run_python(case):
 
 
 def request(case):
+    if case.get("kind") == "hashseeds":
+        return None     # a clause about the Python runtime: no model side
     g = case["g"]
     gs = C.graph_sexp(g["nodes"], g["di"], g["bi"])
     return C.enc(["cf", "idc_star_checked", gs, case["outcomes"], case["conditions"], [list(s) for s in K.id_strategies(joint(case))]])
@@ -820,7 +1010,7 @@ def canon_model(case, rep):
 
 
 def shrink(case):
-    if case.get("_noshrink"):
+    if case.get("_noshrink") or case.get("kind") == "hashseeds":
         return
     r = _evaluate(case)
     if r["fail"] and r["kind"] not in COARSE:
@@ -844,14 +1034,15 @@ MANIFEST = {
              "(ValueError) every condition for which ID* answers Zero, in particular every condition that violates "
              "effectiveness, before doing anything else; the model is defined for every fuel, an answer reached with some fuel "
              "is not changed by more fuel; every leaf of a returned estimand is a single-world interventional term (C06 part); "
-             "Zero from line 3 (inconsistent joint event) is sound in every compatible functional SCM (by C18's cg_prob); the final division is fully modelled; the line-4 recursion terminates within |conditions| + 1 levels when no name is both an outcome and a condition (idcstar_own_recursion_terminates) and, without an explicit bound, on every input without self-intervened keys even when outcomes and conditions are copies of the same variables (idcstar_terminates_shared_names); the returned value EQUALS P(outcomes, conditions)/P(conditions) in every compatible functional SCM on the observational no-exchange fragment (idcstar_sound_fragment, via idstar_sound_fragment, the repaired conditional and marginalisation) and on the exchange fragment (idcstar_sound_fragment_exchange: one factual condition to which rule 2 applies, all or no outcomes descending from it; rule 2 of the do-calculus proved for functional SCMs on the noise space, no positivity assumption). Outside these fragments soundness of the returned value and of Zero from inside ID* has NO theorem (it inherits F10 from "
+             "Zero from line 3 (inconsistent joint event) is sound in every compatible functional SCM (by C18's cg_prob); the final division is fully modelled; the line-4 recursion terminates within |conditions| + 1 levels when no name is both an outcome and a condition (idcstar_own_recursion_terminates) and, without an explicit bound, on every input without self-intervened keys even when outcomes and conditions are copies of the same variables (idcstar_terminates_shared_names); after `fix:` b76144c the answer does not depend on the order in which Python iterates the set of re-associated keys (idcstar_reassociation_order_independent for every relabelled event with pairwise different event keys; idcstar_order_independent for the whole recursion on inputs without self-intervened keys: any permutation before the sort gives the same answer); the returned value EQUALS P(outcomes, conditions)/P(conditions) in every compatible functional SCM on the observational no-exchange fragment (idcstar_sound_fragment, via idstar_sound_fragment, the repaired conditional and marginalisation) and on the exchange fragment (idcstar_sound_fragment_exchange: one factual condition to which rule 2 applies, all or no outcomes descending from it; rule 2 of the do-calculus proved for functional SCMs on the noise space, no positivity assumption). Outside these fragments soundness of the returned value and of Zero from inside ID* has NO theorem (it inherits F10 from "
              "ID* and adds the bound-range part of F11 and an exchange step that ignores the other conditions); the check decides it by correspondence with the real "
              "code plus exact evaluation of P(outcomes, conditions)/P(conditions) on sampled functional SCMs; every wrong answer is "
              "attributed to the first step of IDC*'s chain of claims that exact evaluation shows to be broken (reassociation, "
-             "exchange:conditions, exchange:separation, inherited from ID*, F11) and those steps are listed as open findings; three "
-             "small defects were fixed in idc_star.py (0cb6c69, 8a76512, 9f8a537) and the subscript part of F11 in dsl.py (a54a0f5)."),
+             "exchange:conditions, exchange:separation, inherited from ID*, F11) and those steps are listed as open findings -- a wrong answer is "
+             "excused by a listed finding only if the model returns the same wrong answer on that input; four "
+             "small defects were fixed in idc_star.py (0cb6c69, 8a76512, 9f8a537, b76144c: the answer no longer depends on PYTHONHASHSEED, checked in fresh interpreters under several hash seeds) and the subscript part of F11 in dsl.py (a54a0f5)."),
     "note": ("Trusted: Lean kernel + standard axioms; hand-written models (ID*, counterfactual graph, d-separation of the sep "
              "family, Expression.conditional) tied to the code by differential testing under all set-iteration orders; the "
              "reading convention of estimands; sampled models (8 per case, P(conditions) > 0)."),
-    "technique": "Lean 4 theorems (rejection of impossible conditions, soundness on two named fragments incl. rule 2 for functional SCMs, termination of the line-4 recursion, vocabulary invariant) + differential correspondence (answers and fragment / termination-hypothesis verdicts) + exact-rational functional-SCM oracle + shrunk known findings",
+    "technique": "Lean 4 theorems (rejection of impossible conditions, soundness on two named fragments incl. rule 2 for functional SCMs, termination of the line-4 recursion, independence of the set-iteration order, vocabulary invariant) + differential correspondence (answers and fragment / termination-hypothesis verdicts) + exact-rational functional-SCM oracle + shrunk known findings",
 }
